@@ -102,4 +102,15 @@ TEXT = {
                 "rule answers do not change. In __init__ the function's own run-time asserts are taken as preconditions.",
         "technique": "contract-based deductive verification: own VC generator over the real source + z3/cvc5",
     },
+    "C14": {
+        "level": "MementoFunction._validate_dependency (the real source) is proved, for every call-stack state, caller and callee, to raise UndeclaredDependencyError exactly when a calling frame exists, the "
+                 "caller has no explicit version, the callee is not the caller itself, the callee's qualified name is not the name of any member of the caller's transitive memento dependencies and is not "
+                 "among the function references nested in the caller's arguments / keyword arguments / context arguments -- and to return normally in every other case. MementoFunction.call and call_batch are "
+                 "proved to validate before anything is dispatched on every path (the base-class dispatch has the validation as a precondition; a refused call dispatches nothing). "
+                 "DependencyGraph.transitive_memento_fn_dependencies / direct_memento_fn_dependencies are proved to be exactly the stated filters of the collected rule list (memento rules other than the "
+                 "function itself; additionally first-level for the direct ones).",
+        "note": "Partial: exactness of the collected rule list w.r.t. the reference graph of an arbitrary program (list_dotted_names AST visitor, collect_transitive_dependencies traversal with cycle breaking and "
+                "package scope, df()/graph linking) is outside the verifier's subset and is NOT claimed; _extract_fn_ref_args (recursive walk) is an assumed summary.",
+        "technique": "contract-based deductive verification: own VC generator over the real source + z3/cvc5",
+    },
 }
